@@ -3,7 +3,7 @@
     All statements quantify over arbitrary capacities [ci cb], an arbitrary number of processes (ENew events)
     and EVERY executable event list [es] (all interleavings of acquire, grant, cancel, time-slice expiry,
     yield, failure and release). *)
-From ZV Require Import Lib.Base Model.Sched Proofs.Sched.
+From ZV Require Import Lib.Base Generated.SchedConsts Model.Sched Proofs.Sched Proofs.SchedCap.
 
 (** At any time at most capI processes hold an interactive slot and at most capB a batch slot. *)
 Theorem C20_bounded_concurrency : forall (ci cb : nat) (es : list event) (s : state),
@@ -70,6 +70,18 @@ Theorem C20_accepts_prefix : forall (ci cb : nat) (a b : list tev),
 Proof. exact accepts_prefix. Qed.
 Print Assumptions C20_accepts_prefix.
 
+(** The size newMultiScheduler gives the batch semaphore — the model's [batch_cap] evaluates the computation that
+    translator/schedconsts reads from search/sched.go on every run (coq/Generated/SchedConsts.v) — is exactly the batch
+    capacity of the property ("1/batchdiv of capacity", default 1/4, at least one slot), for EVERY capacity and divisor
+    (batchdiv 0 = tunable not set).  A change of the rounding in the source makes this theorem fail; the harness's
+    capacity sweep (capacities 1..40) then names the capacities at which one search too many holds a batch slot. *)
+Theorem C20_batch_capacity_formula : forall capacity batchdiv : N,
+  batch_cap capacity batchdiv =
+  (let d := if N.eqb batchdiv 0 then 4 else batchdiv in
+   if N.eqb (capacity / d) 0 then 1 else capacity / d)%N.
+Proof. exact batch_cap_formula. Qed.
+Print Assumptions C20_batch_capacity_formula.
+
 (** newMultiScheduler never creates an empty batch queue. *)
 Theorem C20_batch_capacity_positive : forall c d : N, (1 <= batch_cap c d)%N.
 Proof. exact batch_cap_pos. Qed.
@@ -130,3 +142,10 @@ Proof. vm_compute. reflexivity. Qed.
 Example ex_rejects_error_without_cancel :
   accepts 1 1 [TNew; TNew; TAcqCall 0; TAcqOk 0; TAcqCall 1; TAcqErr 1] = false.
 Proof. vm_compute. reflexivity. Qed.
+
+(** the formula theorem is about the generated computation (not a restatement of the spec): what the translator read *)
+Example ex_batch_cap_values :
+  map (fun c => batch_cap c 0) [1; 3; 4; 5; 7; 8; 9; 11; 12; 40]%N = [1; 1; 1; 1; 1; 2; 2; 2; 3; 10]%N /\
+  map (fun c => batch_cap c 3) [1; 2; 3; 4; 5; 6; 7]%N = [1; 1; 1; 1; 1; 2; 2]%N /\
+  default_batchdiv = 4%Z.
+Proof. vm_compute. repeat split. Qed.
